@@ -63,6 +63,10 @@ class Run:
 
     def ob(self, rule, fn, role, ok, detail="", witness="", node=None, file="", config=""):
         """ok: True -> holds, False -> violated, None -> undecided"""
+        if ok is False and ("?alt" in str(detail) or "?alt" in str(witness)):
+            # the degree interpreter joined alternatives of different degree (a branch it could not decide): "either", not "sum";
+            # nothing follows about the value that is really computed
+            ok, detail = None, "alternatives of different degree were joined on an undecided branch (marked ?alt): " + str(detail)
         status = HOLDS if ok is True else (VIOLATED if ok is False else UNDECIDED)
         line = getattr(node, "lineno", 0) if node is not None else 0
         o = Obligation(rule, fn, role, status, detail, witness if status != HOLDS else "", file, line, config)
